@@ -583,7 +583,7 @@ func runC19(r *Run, p *Prog) {
 
 	// ---- A6: re-bindable
 	r.Guard("A6", func() {
-		idx := fieldIndex(ro.ServiceT, "listener")
+		idx := fieldIndex(ro.ServiceT, svcF.Listener)
 		n := 0
 		// stores of a listener on the bind path: in Bind's inlined view, and in scope functions that are not part of it
 		inBind := cg.Reach([]*ssa.Function{bind}, false)
@@ -664,7 +664,7 @@ func runC19(r *Run, p *Prog) {
 		otherState := func(fs []Fact) bool {
 			for _, f := range fs {
 				for _, t := range []string{f.A, f.B} {
-					if strings.Contains(t, recvPfx) && !isRunningTerm(t, getters) && !strings.Contains(t, recvPfx+"mutex") {
+					if strings.Contains(t, recvPfx) && !isRunningTerm(t, getters) && !strings.Contains(t, recvPfx+svcF.Mutex) {
 						return true
 					}
 				}
@@ -941,7 +941,7 @@ func runningGetters(p *Prog, ro *Roles) map[string]bool {
 		rv := returnedValues(f, 0)
 		ok := len(rv) > 0
 		for _, x := range rv {
-			if !strings.HasSuffix(strip(ro.T.T(x.Val)), ".running") {
+			if !strings.HasSuffix(strip(ro.T.T(x.Val)), "."+svcF.Running) {
 				ok = false
 			}
 		}
@@ -954,7 +954,7 @@ func runningGetters(p *Prog, ro *Roles) map[string]bool {
 
 func isRunningTerm(t string, getters map[string]bool) bool {
 	t = strip(t)
-	if strings.HasSuffix(t, ".running") {
+	if strings.HasSuffix(t, "."+svcF.Running) {
 		return true
 	}
 	for g := range getters {
